@@ -16,6 +16,7 @@ def body(ctx):
         flavours += [("avx2only", ["-std=c++17", "-O1", "-mavx2", "-mfma"]), ("sse2only", ["-std=c++17", "-O1", "-msse2"]),
                      ("clang", ["-std=c++17", "-O1", "-march=native"])]
     total = 0
+    seen_records = set()     # records that are identical in several build flavours count once
     for name, flags in flavours:
         exe = vf.build_single("archdump.cpp", "archdump_" + name, flags, compiler="clang++-14" if name == "clang" else "g++")
         r = vf.sh([exe])
@@ -40,7 +41,8 @@ def body(ctx):
             raise vf.InfraError("TLC failed on geometry dump %s rc=%s\n%s" % errors[0])
         ctx.cov["traces_validated_against_impl"] += 1
         ctx.cov["evaluations"] += stats[0]["events"]
-        ctx.cov["distinct_nontrivial"] += len({json.dumps({k: v for k, v in e.items() if k not in ("id", "archs")}, sort_keys=True) for e in events})
+        seen_records.update(json.dumps({k: v for k, v in e.items() if k not in ("id", "archs", "flavour")}, sort_keys=True) for e in events)
+        ctx.cov["distinct_nontrivial"] = len(seen_records)
         ctx.cov["trace_families"][name] = stats[0]
         if len(ctx.cov["samples"]) < 6:
             ctx.cov["samples"] += [events[0], events[1], events[-1]]
@@ -62,7 +64,7 @@ def body(ctx):
     return dict(exhaustive=True,
                 rule="every (architecture, element type) pair, every architecture record (alignment, inheritance chain, list positions), the all_x86/supported/custom "
                      "arch_lists and make_sized_batch_t<T,N> for N in {1,2,3,4,8,...,128}, dumped from the real headers per build flavour (C++17, C++11, emulated"
-                     "%s) and judged record by record by Geometry.tla in TLC; the space is finite and dumped completely; distinct_nontrivial = distinct records"
+                     "%s) and judged record by record by Geometry.tla in TLC; the space is finite and dumped completely; distinct_nontrivial = distinct records (a record dumped identically by several build flavours counts once)"
                      % ("" if ctx.quick else ", AVX2-only, SSE2-only, clang"))
 
 
